@@ -105,9 +105,8 @@ where
     }
 
     fn get(&self, item_idx: usize) -> Option<Idx> {
-        let value = self.range.start + item_idx.into();
-        match value.cmp(&self.range.end) {
-            Ordering::Less => Some(value),
+        match item_idx.cmp(&self.initial_len()) {
+            Ordering::Less => Some(self.range.start + item_idx.into()),
             _ => None,
         }
     }
@@ -134,7 +133,7 @@ where
     }
 
     fn early_exit(&self) {
-        self.counter().store(self.range.end.into())
+        self.counter().store(self.initial_len())
     }
 }
 
@@ -243,7 +242,7 @@ where
     /// }
     /// ```
     fn into_seq_iter(self) -> Self::SeqIter {
-        let current = self.counter().current();
+        let current = self.counter().current().min(self.initial_len());
         (self.range.start + current.into())..self.range.end
     }
 
